@@ -379,7 +379,7 @@ func (u *Unit) lockOp(fr *Frame, st *State, pv Val, mode int64, where string) {
 	}
 	lk := lockKeyOfPtr(p)
 	held := u.heldTerm(st, lk, p.Base)
-	u.oblige("lock.no_reentry("+lk+")", []string{"C09", "C11", "C13", "C03", "C06"}, "", st.pc, Eq(held, TZero), where, "acquiring "+lk+" while this activation already holds it")
+	u.oblige("lock.no_reentry("+lk+")", []string{"C09", "C11", "C13", "C03", "C06", "C04", "C08", "C12"}, "", st.pc, Eq(held, TZero), where, "acquiring "+lk+" while this activation already holds it")
 	u.lockOrder(st, lk, "", where)
 	// interference: fields protected by the lock may have changed before we got it
 	u.havocProtected(st, p, lk, "acq")
@@ -462,7 +462,7 @@ func (u *Unit) unlockOp(fr *Frame, st *State, pv Val, mode int64, where string) 
 	}
 	lk := lockKeyOfPtr(p)
 	held := u.heldTerm(st, lk, p.Base)
-	u.oblige("lock.unlock_held("+lk+")", []string{"C09", "C11", "C13", "C03", "C06"}, "", st.pc, Eq(held, IntLit(mode)), where, "unlock of a lock not held in that mode")
+	u.oblige("lock.unlock_held("+lk+")", []string{"C09", "C11", "C13", "C03", "C06", "C04", "C08", "C12"}, "", st.pc, Eq(held, IntLit(mode)), where, "unlock of a lock not held in that mode")
 	this := &Scalar{T: p.Base, Typ: types.NewPointer(p.RTyp)}
 	u.event(fr, st, "unlock "+lk, map[string]Val{"base": this}, where)
 	if mode == 2 {
